@@ -490,6 +490,19 @@ func parseStops(csv *csv.File, inheritWheelchairBoarding bool) []Stop {
 		if !ok {
 			continue
 		}
+		// A stop must not become its own ancestor, otherwise Root() never returns.
+		// The links made so far are acyclic, so this walk terminates.
+		createsCycle := false
+		for ancestor := &stops[parentStopIndex]; ancestor != nil; ancestor = ancestor.Parent {
+			if ancestor == &stops[i] {
+				createsCycle = true
+				break
+			}
+		}
+		if createsCycle {
+			log.Printf("Ignoring parent_station %q of stop %q: it would create a cycle", parentStopId, stops[i].Id)
+			continue
+		}
 		stops[i].Parent = &stops[parentStopIndex]
 	}
 
